@@ -282,3 +282,37 @@ def r6c_binding_forms(ctx):
             else:
                 r.violate(key, "parameters in Arguments.%s are not enumerated (not treated as declared parameters)" % a)
     return r
+
+
+def r6d_all_decorators(ctx):
+    r = Result("R6d", "the extractors that turn a decorator / mark expression into fixture usages are applied to every decorator: "
+                      "they are never the predicate or mapper of a first-match selection (find / find_map / next / first / any)")
+    crate = ctx.bin
+    extractors = [f for f in crate.real_fns() if f.kind == "fn" and "decorators::" in f.id
+                  and f.ret.startswith("std::vec::Vec<(std::string::String,")]
+    r.counts["extractors"] = ",".join(sorted(f.id.split("::")[-1] for f in extractors))
+    ids = {f.id for f in extractors}
+    n = 0
+    for f in crate.real_fns():
+        for bb, c in f.calls():
+            used = [cid for cid, loc in c.get("clos", []) if cid in ids]
+            # closures that call an extractor
+            for cid, loc in c.get("clos", []):
+                cf = crate.fns.get(cid)
+                if cf is not None and cf.id not in ids and any((c2.get("res") or "") in ids for _b, c2 in cf.calls()):
+                    used.append(cid)
+            if not used:
+                if (c.get("res") or "") in ids:
+                    n += 1
+                    r.ok(sample={"extractor_call": (c.get("res") or "").split("::")[-1], "in": f.id.split("::")[-1]} if len(r.samples) < 3 else None)
+                continue
+            n += 1
+            m = (c.get("fn") or "").split("::")[-1]
+            key = "R6d|%s|%s over %s" % (f.id, m, ",".join(sorted(x.split("::")[-1] for x in used)))
+            if m in ("find", "find_map", "next", "first", "any", "position", "nth", "last", "take", "take_while", "skip_while"):
+                r.violate(key, "%s at %s stops at the first decorator that yields usages: marks stacked after it are ignored" % (m, crate.span_str(c["span"])))
+            else:
+                r.ok()
+    r.floor("usage extractors", len(extractors), 3)
+    r.floor("extractor applications", n, 4)
+    return r
